@@ -325,7 +325,15 @@ func (b *runner) exec(op string) (skip bool, res string, facts string) {
 		v, _ := strconv.Atoi(w[3])
 		want, seq := applyWrites(contents{}, w[4])
 		// source: a scratch in-memory database holding the tree at version v
-		src, err := badger.New(&api.Config{MemoryOnly: true, Namespace: ns, MaxCacheSize: 4 << 20})
+		// (the OTHER backend, so that its crash-point names do not mix with those under test)
+		srcCfg := &api.Config{MemoryOnly: true, Namespace: ns, MaxCacheSize: 4 << 20}
+		var src api.NodeDB
+		var err error
+		if b.kind == "badger" {
+			src, err = pathbadger.New(srcCfg)
+		} else {
+			src, err = badger.New(srcCfg)
+		}
 		if err != nil {
 			return false, "other:src", ""
 		}
@@ -464,6 +472,9 @@ type childOut struct {
 	Err     string            `json:"err"`
 }
 
+// logPrefix restricts the recorded boundaries to the backend under test.
+var logPrefix = ""
+
 func readLog(path string, from int) ([]string, int) {
 	b, _ := os.ReadFile(path)
 	ls := strings.Split(strings.TrimSpace(string(b)), "\n")
@@ -472,7 +483,9 @@ func readLog(path string, from int) ([]string, int) {
 	}
 	var out []string
 	for _, l := range ls[from:] {
-		out = append(out, l)
+		if strings.HasPrefix(l, logPrefix) {
+			out = append(out, l)
+		}
 	}
 	return out, len(ls)
 }
@@ -489,6 +502,7 @@ func childMain(kind, dir, opsFile, outFile string) {
 		os.Exit(3)
 	}
 	b := newRunner(kind, db)
+	logPrefix = kind + "."
 	co := childOut{FinPre: map[string]string{}}
 	logPath := os.Getenv("VERIF_CRASH_LOG")
 	pos := 0
@@ -725,10 +739,12 @@ func check(kind string, ops []string, res *hlib.Result, count bool) []verdict {
 			}
 		}
 		// 3. no partially restored checkpoint is visible as a finalized root
+		restoreFinalized := false
 		if k == "restore" {
 			w := strings.Fields(lastOp)
 			want, _ := applyWrites(contents{}, w[4])
 			if l, ok := db.GetLatestVersion(); ok && strconv.FormatUint(l, 10) == w[3] {
+				restoreFinalized = true
 				for _, r := range ref.Known {
 					if strconv.Itoa(r.V) == w[3] && nowRead[r.key()] != want.String() {
 						vs = append(vs, verdict{"spec", fmt.Sprintf("%s:crash-restored-version-finalized-but-unreadable:%s", kind, boundaryBase(bnd)),
@@ -739,7 +755,9 @@ func check(kind string, ops []string, res *hlib.Result, count bool) []verdict {
 		}
 		// 2. old, new, or retry completes
 		retry := "-"
-		if class != "new" {
+		if restoreFinalized && class != "new" {
+			class = "finalized-damaged" // the restore is finalized: there is nothing to retry
+		} else if class != "new" {
 			// replay bookkeeping: tags are needed for the retry; rebuild them from the reference
 			rb := rebuildRunner(kind, db, ref, n)
 			_, r, _ := rb.exec(lastOp)
@@ -751,7 +769,11 @@ func check(kind string, ops []string, res *hlib.Result, count bool) []verdict {
 					fmt.Sprintf("after a crash at %s (state %s) retrying `%s` returns %s", bnd, class, lastOp, r)})
 			} else if !same(after, ref.ObsFull) {
 				class += "+retry-differs"
-				vs = append(vs, verdict{"spec", fmt.Sprintf("%s:crash-retry-differs:%s", kind, boundaryBase(bnd)),
+				sb := boundaryBase(bnd)
+				if k == "restore" {
+					sb = "restore"
+				}
+				vs = append(vs, verdict{"spec", fmt.Sprintf("%s:crash-retry-differs:%s", kind, sb),
 					fmt.Sprintf("after a crash at %s and a successful retry of `%s` the state differs from the uninterrupted run: %s", bnd, lastOp, firstDiff(after, ref.ObsFull))})
 			} else {
 				class += "+retry-ok"
@@ -907,7 +929,7 @@ func main() {
 		cs := cr.Seed()
 		full := genCase(cr, 2+cr.Intn(*nver), res)
 		// cut after a random op, biased to one of each kind
-		wantKind := []string{"commit", "finalize", "prune"}[i%3]
+		wantKind := []string{"commit", "finalize", "prune", "restore"}[i%4]
 		var idx []int
 		for j, o := range full {
 			if opKind(o) == wantKind {
@@ -921,6 +943,33 @@ func main() {
 		}
 		cut := idx[cr.Intn(len(idx))]
 		ops := full[:cut+1]
+		if wantKind == "restore" {
+			// a checkpoint restore on top of a (possibly empty) finalized history
+			lastFin := -1
+			for j, o := range full {
+				if opKind(o) == "finalize" {
+					lastFin = j
+				}
+			}
+			ops = nil
+			maxV := 0
+			if lastFin >= 0 && cr.Chance(2, 3) {
+				ops = append(ops, full[:lastFin+1]...)
+				for _, o := range ops {
+					f := strings.Fields(o)
+					if f[0] == "finalize" {
+						if v, _ := strconv.Atoi(f[1]); v > maxV {
+							maxV = v
+						}
+					}
+				}
+			}
+			var kv []string
+			for j := 0; j < 4+cr.Intn(8); j++ {
+				kv = append(kv, fmt.Sprintf("k%02d=%s", cr.Intn(30), strings.Repeat("v", 1+cr.Intn(12))))
+			}
+			ops = append(ops, fmt.Sprintf("restore R1 0 %d %s", maxV+1+cr.Intn(3), strings.Join(kv, ",")))
+		}
 		for _, k := range backends {
 			key := k + ";" + strings.Join(ops, ";")
 			if !seen[key] {
